@@ -11,6 +11,7 @@ CONSTANTS
   BigCode = 43
   BigLens = {0}
   IdClasses = {"rand", "carryLE", "carryBE", "carryHdr"}
+  WriteFailures = {"none", "temp1", "perm1", "temp2"}
   NICs = {"nicA", "nicB", "nicC"}
   Parts = {"send"}
 INVARIANTS Export ModelOK
